@@ -5,10 +5,15 @@ SPEC = {
     "tests": [
         {"name": "TestHTTPSamples", "quick": 320, "thorough": 24000, "shards_quick": 8, "shards_thorough": 16, "timeout": 3000},
         {"name": "TestGRPCCodes", "quick": 48, "thorough": 3200, "shards_quick": 4, "shards_thorough": 16, "timeout": 3000},
+        {"name": "TestScenarioSamples", "quick": 400, "thorough": 24000, "shards_quick": 8, "shards_thorough": 16, "timeout": 3000},
         # one process at a time is enough: each case already runs 2-16 goroutines flat out
         {"name": "TestIDsUnique", "quick": 60, "thorough": 3000, "shards_quick": 2, "shards_thorough": 4, "timeout": 3000},
     ],
-    "rule": ("TestIDsUnique: a real uri provider (streaming or preloaded) with limit 2000 / 20000 / 60000 is drained by 2-16 goroutines "
+    "rule": ("TestScenarioSamples: generated http scenarios (1-4 steps with multiplicities, postprocessors none / assert status / assert "
+             "body / var/jsonpath before or after an assert) shot 1-5 times by one instance; the scripted target makes one request of "
+             "some invocations carry a status or a body that the step's assertion rejects; the phout sample stream must be exactly one "
+             "sample per executed step, tagged <scenario>.<step name>, completed steps with the status received, the failed step "
+             "reported as failed, nothing after it; non-trivial = a step failed by a postprocessor. TestIDsUnique: a real uri provider (streaming or preloaded) with limit 2000 / 20000 / 60000 is drained by 2-16 goroutines "
              "calling Acquire/Release as fast as they can (where the ids are issued); every id must occur once; non-trivial = >= 4 "
              "consumers and >= 20000 ammo. TestHTTPSamples: rapid-generated ammo (uri / http-json / raw; 1-8 entries with 0-5 path elements, tagged or not) x scripted "
              "target answers (any status 200-599; connection reset, response-header timeout, body shorter than Content-Length; target "
@@ -30,8 +35,7 @@ SPEC = {
                  "elements (appended with '|' when the ammo is tagged and no-tag-only is off) / __EMPTY__; ids unique across instances. "
                  "gRPC: proto code equals the documented mapping for all 17 defined codes and 500 for anything else."),
         "note": ("1xx statuses are not generated (Go's client consumes them); which errno a failure maps to is not asserted, only "
-                 "non-zero. The scenario-step tagging clause of the property is exercised by the scenario checks (C15) as well as here "
-                 "once the scenario generator is wired in."),
+                 "non-zero. The gRPC half of the scenario-step clause is asserted by C20 TestGRPCScenario."),
     },
     "assumptions": ["responses are matched to entries by a unique first path element, so concurrent instances cannot be confused"],
 }
